@@ -72,6 +72,8 @@ def decide(out, obs, n, st, rule):
                 multi += 1
             if len(samples) < 4 and o.get("case", 0) % 2503 == 5:
                 samples.append({"input": "".join(chr(c) for c in o["input"]), "tokens": [("".join(chr(c) for c in t["text"]), t["ty"], t["row"], t["col"]) for t in o["toks"]]})
+        if o.get("outcome") == "notrun":
+            continue
         if o.get("outcome") in ("hang", "abort", "harness_panic"):
             out.fail("NEW", "worker %s while lexing" % o.get("outcome"), o.get("input_case"))
     out.cov["accepted_inputs"] = accepted
